@@ -154,6 +154,77 @@ Lemma fsum_lr_exact row :
   Forall (fun x => 0 <= x) row -> rsum row <= two24 -> fsum_lr rnd24 row = rsum row.
 Proof. intros Hr Hs. unfold fsum_lr. rewrite fsum_lr_exact_gen; [lia | lia | exact Hr | lia]. Qed.
 
+(* ------------------------------------------------------------------ EVERY bracketing (audit 4, A6) *)
+(* np.sum(axis=1) is NOT the left-to-right fold for rows of 8 or more entries: numpy's pairwise sum keeps 8
+   running partial sums r[j] += a[i + j] and combines them as ((r0+r1)+(r2+r3)) + ((r4+r5)+(r6+r7)), recursing
+   on halves above 128 entries.  Whatever the scheme, it is a binary tree of rounded additions whose leaves are
+   the entries of the row IN SOME ORDER (not the row order: r0 collects a[0], a[8], a[16], ...), possibly with
+   a literal 0 as a start value.  sum_tree is any such tree; the theorem below needs nothing about its shape. *)
+Inductive sum_tree :=
+| SLeaf (x : Z)                    (* an entry of the row *)
+| SZero                            (* the start value of an accumulator *)
+| SNode (l r : sum_tree).          (* one rounded addition *)
+Fixpoint leaves (t : sum_tree) : list Z :=
+  match t with SLeaf x => [x] | SZero => [] | SNode l r => leaves l ++ leaves r end.
+Fixpoint fsum_tree (rnd : Z -> Z) (t : sum_tree) : Z :=
+  match t with SLeaf x => x | SZero => 0 | SNode l r => rnd (fsum_tree rnd l + fsum_tree rnd r) end.
+
+Lemma rsum_app a b : rsum (a ++ b) = rsum a + rsum b.
+Proof. unfold rsum. induction a as [|x t IH]; cbn [app fold_right]; [lia|]. rewrite IH. lia. Qed.
+
+(* every sub-sum of non-negative counts is at most the whole sum, hence at most 2^24, hence exact *)
+Lemma fsum_tree_exact t :
+  Forall (fun x => 0 <= x) (leaves t) -> rsum (leaves t) <= two24 -> fsum_tree rnd24 t = rsum (leaves t).
+Proof.
+  induction t as [x| |l IHl r IHr]; intros Hr Hs; cbn [leaves fsum_tree] in *.
+  - unfold rsum. cbn. lia.
+  - reflexivity.
+  - apply Forall_app in Hr. destruct Hr as [Hl Hrr]. rewrite rsum_app in Hs |- *.
+    pose proof (rsum_nonneg _ Hl) as Nl. pose proof (rsum_nonneg _ Hrr) as Nr.
+    rewrite IHl by (try exact Hl; lia). rewrite IHr by (try exact Hrr; lia).
+    unfold rnd24. destruct (rsum (leaves l) + rsum (leaves r) <=? two24) eqn:E; [reflexivity|].
+    apply Z.leb_gt in E. lia.
+Qed.
+
+(* the statement about a ROW: whatever tree of additions is laid over the entries of the row, taken in
+   whatever order, the binary32 result is the exact row sum *)
+Theorem fsum_any_bracketing_exact row t :
+  Forall (fun x => 0 <= x) row -> rsum row <= two24 -> Permutation (leaves t) row ->
+  fsum_tree rnd24 t = rsum row.
+Proof.
+  intros Hr Hs HP. rewrite <- (rsum_perm _ _ HP) in Hs |- *. apply fsum_tree_exact; [|exact Hs].
+  rewrite Forall_forall in Hr |- *. intros x Hx. apply Hr. apply (Permutation_in _ HP Hx).
+Qed.
+
+(* the left-to-right fold is one of the trees (the left comb over the row, started at 0) ... *)
+Definition comb_tree (row : list Z) : sum_tree := fold_left (fun t x => SNode t (SLeaf x)) row SZero.
+Lemma comb_tree_gen rnd row : forall t,
+  fsum_tree rnd (fold_left (fun t x => SNode t (SLeaf x)) row t) = fold_left (fun acc x => rnd (acc + x)) row (fsum_tree rnd t) /\
+  leaves (fold_left (fun t x => SNode t (SLeaf x)) row t) = leaves t ++ row.
+Proof.
+  induction row as [|x r IH]; intros t; cbn [fold_left].
+  - split; [reflexivity | rewrite app_nil_r; reflexivity].
+  - destruct (IH (SNode t (SLeaf x))) as [A B]. split; [exact A|]. rewrite B. cbn [leaves]. rewrite <- app_assoc. reflexivity.
+Qed.
+Lemma comb_tree_is_fsum_lr rnd row : fsum_tree rnd (comb_tree row) = fsum_lr rnd row /\ leaves (comb_tree row) = row.
+Proof. unfold comb_tree, fsum_lr. destruct (comb_tree_gen rnd row SZero) as [A B]. split; [exact A | exact B]. Qed.
+
+(* ... and so is numpy's pairwise_sum for 8 <= n < 16 entries, spelled out for n = 10 (the audit's row length):
+   r[0..7] = a[0..7]; res = ((r0+r1)+(r2+r3)) + ((r4+r5)+(r6+r7)); then the n % 8 = 2 remaining entries are added
+   to res one by one *)
+Definition np_pairwise_10 (a : list Z) : sum_tree :=
+  let x i := SLeaf (nth i a 0) in
+  let res := SNode (SNode (SNode (x 0%nat) (x 1%nat)) (SNode (x 2%nat) (x 3%nat)))
+                   (SNode (SNode (x 4%nat) (x 5%nat)) (SNode (x 6%nat) (x 7%nat))) in
+  SNode (SNode res (x 8%nat)) (x 9%nat).
+(* out of the domain the two trees differ from each other and from the exact sum (the numbers of the audit:
+   np.array([16777213] + [1]*9, dtype=np.float32).sum() = 16777220) *)
+Lemma bracketings_differ_above_2_24 :
+  let row := [16777213; 1; 1; 1; 1; 1; 1; 1; 1; 1] in
+  leaves (np_pairwise_10 row) = row /\
+  fsum_tree rnd24 (np_pairwise_10 row) = 16777220 /\ fsum_lr rnd24 row = 16777216 /\ rsum row = 16777222.
+Proof. vm_compute. repeat split; reflexivity. Qed.
+
 Lemma float_sum_order_matters :
   (forall r1 r2, Permutation r1 r2 -> rsum r1 = rsum r2) /\
   Permutation [two24; 1; 1] [1; 1; two24] /\
